@@ -740,3 +740,27 @@ Proof.
   rewrite (line_oracle_map Z Z Z.ltb Z.ltb (unrank l) (fun i => In i r) Hmono r HF).
   unfold line_canon_Z, line_oracle_Z in Hok. rewrite Hok. reflexivity.
 Qed.
+
+(* ------------------------------------------------------------------ statements as used in Properties_C14.v *)
+Theorem line_never_fails (l : list Z) : line_Z l <> None.
+Proof.
+  pose proof (line_Z_total l) as H. destruct l as [|x r]; [rewrite H; discriminate|].
+  destruct H as (ps & m & H & _). rewrite H. discriminate.
+Qed.
+Theorem line_outputs_strict (l : list Z) ps m : line_Z l = Some (ps, m) -> Forall (fun p => fst p < snd p) ps.
+Proof.
+  intros H0. pose proof (line_Z_total l) as H. destruct l as [|x r].
+  - rewrite H in H0. inversion H0; subst. constructor.
+  - destruct H as (ps' & m' & H & Hst & _). rewrite H in H0. inversion H0; subst. exact Hst.
+Qed.
+Theorem line_min_global (l : list Z) ps m : line_Z l = Some (ps, Some m) -> In m l /\ forall x, In x l -> m <= x.
+Proof.
+  intros H0. pose proof (line_Z_total l) as H. destruct l as [|x r].
+  - rewrite H in H0. discriminate.
+  - destruct H as (ps' & m' & H & _ & Hin & Hmin). rewrite H in H0. inversion H0; subst. split; assumption.
+Qed.
+Theorem line_empty_iff (l : list Z) ps : line_Z l = Some (ps, None) -> l = [].
+Proof.
+  intros H0. pose proof (line_Z_total l) as H. destruct l as [|x r]; [reflexivity|].
+  destruct H as (ps' & m' & H & _). rewrite H in H0. discriminate.
+Qed.
